@@ -237,6 +237,8 @@ def currents(draw, dspec, current_units, kinds=("dict", "callable"), allow_zero=
         # switching time as a fraction of the run (builders that know solve_time use it), with an absolute fallback
         cs["t0_frac"] = draw(rf(0.1, 0.6))
         cs["t0"] = draw(rf(0.02, 2.0))
+        # the callable returns a new dict per call, or one dict object that it updates in place
+        cs["same_dict"] = draw(st.integers(0, 3)) == 0
     return cs
 
 
